@@ -92,6 +92,9 @@ func decodeCborLinkListFromAny(maybeList any) (List__Link, error) {
 			if !ok {
 				return nil, fmt.Errorf("expected cbor tag content to be []byte, got %T", rawTag.Content)
 			}
+			if len(rawBytes) == 0 {
+				return nil, fmt.Errorf("expected cbor tag content to be a non-empty []byte")
+			}
 			// the tag content is the _cid.Cid, after the first byte
 			_, _cid, err := cid.CidFromBytes(rawBytes[1:])
 			if err != nil {
@@ -354,7 +357,11 @@ func (x *Block) UnmarshalCBOR(data []byte) error {
 	}
 	// fifth is the meta SlotMeta
 	if meta, ok := arr.Get(4); ok {
-		metaArr := _array(meta.([]interface{}))
+		metaRaw, ok := meta.([]interface{})
+		if !ok {
+			return fmt.Errorf("expected meta to be []interface{}, got %T", meta)
+		}
+		metaArr := _array(metaRaw)
 		var m SlotMeta
 		if parentSlot, ok := metaArr.Get(0); ok {
 			parentSlot, err := getUint64FromInterface(parentSlot)
@@ -402,6 +409,9 @@ func (x *Block) UnmarshalCBOR(data []byte) error {
 		rawBytes, ok := rawTag.Content.([]byte)
 		if !ok {
 			return fmt.Errorf("expected cbor tag content to be []byte, got %T", rawTag.Content)
+		}
+		if len(rawBytes) == 0 {
+			return fmt.Errorf("expected cbor tag content to be a non-empty []byte")
 		}
 		_, _cid, err := cid.CidFromBytes(rawBytes[1:])
 		if err != nil {
@@ -489,7 +499,11 @@ func (x *Rewards) UnmarshalCBOR(data []byte) error {
 	}
 	// third is the data DataFrame
 	if data, ok := arr.Get(2); ok {
-		dataArr := _array(data.([]interface{}))
+		dataRaw, ok := data.([]interface{})
+		if !ok {
+			return fmt.Errorf("expected data to be []interface{}, got %T", data)
+		}
+		dataArr := _array(dataRaw)
 		var d DataFrame
 		if err := d.fromCBORArray(dataArr); err != nil {
 			return fmt.Errorf("failed to decode metadata: %w", err)
@@ -551,7 +565,10 @@ func (x *Entry) UnmarshalCBOR(data []byte) error {
 	}
 	// third is the hash Hash
 	if hash, ok := arr.Get(2); ok {
-		h := hash.([]byte)
+		h, ok := hash.([]byte)
+		if !ok {
+			return fmt.Errorf("expected hash to be []byte, got %T", hash)
+		}
 		x.Hash = h
 	} else {
 		return fmt.Errorf("expected hash to be present")
@@ -616,7 +633,11 @@ func (x *Transaction) UnmarshalCBOR(data []byte) error {
 	}
 	// second is the data DataFrame
 	if data, ok := arr.Get(1); ok {
-		dataArr := _array(data.([]interface{}))
+		dataRaw, ok := data.([]interface{})
+		if !ok {
+			return fmt.Errorf("expected data to be []interface{}, got %T", data)
+		}
+		dataArr := _array(dataRaw)
 		var d DataFrame
 		if err := d.fromCBORArray(dataArr); err != nil {
 			return fmt.Errorf("failed to decode metadata: %w", err)
@@ -627,7 +648,11 @@ func (x *Transaction) UnmarshalCBOR(data []byte) error {
 	}
 	// third is the metadata DataFrame
 	if metadata, ok := arr.Get(2); ok {
-		metaArr := _array(metadata.([]interface{}))
+		metaRaw, ok := metadata.([]interface{})
+		if !ok {
+			return fmt.Errorf("expected metadata to be []interface{}, got %T", metadata)
+		}
+		metaArr := _array(metaRaw)
 		var m DataFrame
 		if err := m.fromCBORArray(metaArr); err != nil {
 			return fmt.Errorf("failed to decode metadata: %w", err)
